@@ -12,7 +12,13 @@ from ..core import zl, zs, cbool, copt, clist, cz
 
 IMPORTS = 'From AV Require Import Base.Prelude Model.HostTrust Corr.C04Corr.'
 T0 = 1_700_000_000                      # the harness' clock; certificate windows are placed around it
-FORMS = ['bytes', 'bytes', 'path', 'paths', 'obj', 'callable', 'tuple3', 'tuple7', 'empty', 'unset', 'default_file']
+FORMS = ['bytes', 'bytes', 'path', 'paths', 'paths_obj', 'paths_cfg', 'obj', 'callable', 'tuple3', 'tuple7', 'empty',
+         'unset', 'default_file']
+# 'paths' = known_hosts=[files], 'paths_obj' = read_known_hosts([files]), 'paths_cfg' = UserKnownHostsFile /
+# GlobalKnownHostsFile in an ssh_config.  cfg['split'] = cut points in the line list, cfg['eol'] = how each file ends
+# and which line ending it uses.  Files are independent: a line never spans two files.
+FILE_FORMS = ('paths', 'paths_obj', 'paths_cfg')
+EOLS = ['lf', 'none', 'crlf', 'crlf_none']
 # 'empty' = known_hosts=b'', 'unset' = known_hosts not given: the client then reads ~/.ssh/known_hosts if it is a
 # readable file and otherwise trusts NOTHING (it must not switch checking off); 'default_file' = not given and the
 # generated text is that file.  HOME points into the work directory for the whole run.
@@ -61,19 +67,47 @@ def gen_config(rng):
     return {'host': host, 'addr': addr, 'port': port, 'alias': alias, 'lines': lines,
             'form': 'none' if rng.random() < 0.04 else rng.choice(FORMS),
             'cb_key': rng.random() < 0.08, 'cb_ca': rng.random() < 0.08,
-            'path': path, 'via_config': rng.random() < 0.15}
+            'path': path, 'via_config': rng.random() < 0.15,
+            'split': sorted(rng.sample(range(1, max(2, len(lines))), min(rng.randint(1, 2), max(1, len(lines) - 1)))),
+            'eol': [rng.choice(EOLS) for _ in range(3)]}
 
 
 def config_file(cfg, workdir, tag):
     """ssh_config carrying Hostname / Port / HostKeyAlias for the nickname, or None"""
-    if not cfg.get('via_config'):
+    if not cfg.get('via_config') and cfg['form'] != 'paths_cfg':
         return None
     p = os.path.join(workdir, 'kh_cfg_%s' % tag)
     with open(p, 'w') as f:
         f.write('Host %s\n  Hostname %s\n  Port %d\n' % (N.NICK, cfg['host'], cfg['port']))
         if cfg['alias']:
             f.write('  HostKeyAlias %s\n' % cfg['alias'])
+        if cfg['form'] == 'paths_cfg':
+            paths = cfg['_paths']                       # written by known_hosts_arg just before
+            f.write('  UserKnownHostsFile %s\n' % ' '.join(paths[:-1] or paths))
+            if len(paths) > 1:
+                f.write('  GlobalKnownHostsFile %s\n' % paths[-1])
     return p
+
+
+def write_files(pool, cfg, workdir, tag):
+    """The generated lines distributed over files as cfg['split'] / cfg['eol'] say."""
+    rendered = [P.render(pool, [ln])[:-1] for ln in cfg['lines']]
+    cuts = [c for c in cfg.get('split', [len(rendered) // 2]) if 0 < c < len(rendered)]
+    bounds = [0] + cuts + [len(rendered)]
+    eols = cfg.get('eol', ['lf'])
+    paths = []
+    for i in range(len(bounds) - 1):
+        part = rendered[bounds[i]:bounds[i + 1]]
+        eol = eols[i % len(eols)]
+        nl = '\r\n' if eol.startswith('crlf') else '\n'
+        body = nl.join((['# c04'] if i % 2 == 0 else []) + part)
+        if not eol.endswith('none'):
+            body += nl
+        p = os.path.join(workdir, 'kh_%s_%d' % (tag, i))
+        with open(p, 'wb') as f:
+            f.write(body.encode())
+        paths.append(p)
+    return paths
 
 
 def E(marker, field, key):
@@ -129,6 +163,17 @@ def directed_configs():
     add('10.0.0.2', [E('', '10.0.0.0/24', 0), E('', '10.0.0.2', 1), E('revoked', '10.0.0.?', 2)])
     add('bar', [E('', 'mem', 0), E('', 'bar', 1), E('', 'c04nick', 2)], alias='mem', via_config=True, port=2222)
     add('bar', [E('', 'bar', 1), E('', 'c04nick', 2)], via_config=True)
+    # file lists: the plain / @revoked / @cert-authority lines of one key in different files, both orders, every
+    # split point, every way a file can end; a line never spans two files
+    three = [E('', 'mem', 0), E('revoked', 'mem', 0), E('cert-authority', 'mem', 4), E('revoked', '*', 4)]
+    n = 0
+    for order in (three, three[::-1]):
+        for split in ([1], [2], [3], [1, 2], [2, 3], [1, 2, 3]):
+            for eol in EOLS:
+                forms = FILE_FORMS if eol == 'none' else [FILE_FORMS[n % 3]]
+                n += 1
+                for form in forms:
+                    add('mem', [dict(l) for l in order], form=form, split=split, eol=[eol], light=True)
     # alias, callbacks, no checking, direct lists
     add('bar', [E('', 'mem', 0), E('', 'bar', 1), E('cert-authority', 'mem', 4)], alias='mem')
     add('mem', [E('', 'bar', 0), E('revoked', 'mem', 1)], cb_key=True, cb_ca=True)
@@ -158,16 +203,16 @@ def known_hosts_arg(pool, cfg, workdir, tag):
         return text.encode()
     if form == 'obj':
         return asyncssh.import_known_hosts(text)
-    if form in ('path', 'paths'):
-        ls = text.splitlines(True)
-        parts = [ls] if form == 'path' else [ls[:len(ls) // 2], ls[len(ls) // 2:]]
-        paths = []
-        for i, part in enumerate(parts):
-            p = os.path.join(workdir, 'kh_%s_%d' % (tag, i))
-            with open(p, 'w') as f:
-                f.write('# c04\n' + ''.join(part))
-            paths.append(p)
-        return paths[0] if form == 'path' else paths
+    if form == 'path':
+        p = os.path.join(workdir, 'kh_%s_0' % tag)
+        with open(p, 'w') as f:
+            f.write(text)
+        return p
+    if form in FILE_FORMS:
+        paths = cfg['_paths'] = write_files(pool, cfg, workdir, tag)
+        if form == 'paths_obj':
+            return asyncssh.read_known_hosts(paths)
+        return paths if form == 'paths' else ()
 
     def lists(h, a, p):
         t, c, r = P.ref_lookup(cfg['lines'], h, a, p)
@@ -187,6 +232,8 @@ def real_lookup(pool, kh, cfg):
         kh = b''                                        # documented: no default file -> an empty trust set
     elif cfg['form'] == 'default_file':
         kh = os.path.join(os.environ['HOME'], '.ssh', 'known_hosts')
+    elif cfg['form'] == 'paths_cfg':
+        kh = list(cfg['_paths'])                        # what the options make of User/GlobalKnownHostsFile
     res = asyncssh.match_known_hosts(kh, *query(cfg))
     # the client turns the three lists into sets; duplicates (several matching lines) carry no information
     return tuple(sorted({pool.index_of_blob(k.public_data) for k in res[i]}) for i in range(3))
@@ -209,6 +256,9 @@ def variants_for(rng, cfg, tier):
     decision boundaries."""
     name = cfg['alias'] or cfg['host']
     vs = [{'form': 'plain', 'key': i} for i in range(len(P.POOL_SPEC))]
+    if cfg.get('light'):                                # file layout cases: the lookup is the subject, few blobs suffice
+        return vs + [{'form': 'cert', 'key': 0, 'ca': ca, 'ctype': 2, 'after': T0 - 100, 'before': T0 + 100,
+                      'principals': [name], 'bad_sig': False} for ca in P.CA_KEYS]
     other = 'bar' if name != 'bar' else 'mem'
     for ca in P.CA_KEYS + [P.OUTSIDER]:
         for key in ([0, 2] if tier == 'quick' else P.HOST_KEYS):
@@ -878,6 +928,8 @@ def stage_scripts(ctx, pool, configs, n):
     cases, stats = [], {'reached_auth': 0, 'closed': 0, 'deferred_then_flushed': 0}
     for i in range(n):
         cfg = dict(configs[i % len(configs)], path='direct', via_config=False)   # the order is the subject here
+        if cfg['form'] == 'paths_cfg':
+            cfg['form'] = 'paths'
         vs = variants_for(rng, cfg, ctx.tier)
         tr_ref = ref_trust(cfg)
         acc = [v for v in vs if expected_accept(tr_ref, cfg, v, T0) and v['form'] != 'garbage']
@@ -934,7 +986,7 @@ def run(ctx):
         'Configurations = generated known_hosts (1-7 lines over plain, [host]:port, wildcard, negated, CIDR and hashed host '
         'fields aimed at or near the queried host/address/port; markers none/@cert-authority/@revoked; comments, blank and '
         'unparsable lines) handed to the real client as bytes, file name, list of file names, SSHKnownHosts object, callable, '
-        '3-tuple, 7-tuple or None, plus host_key_alias and validate_host_*_key callbacks; 34 fixed configurations (hostile names '
+        '3-tuple, 7-tuple or None, plus host_key_alias and validate_host_*_key callbacks; 106 fixed configurations (hostile names '
         'against wildcard lines, listed+revoked, revoked CA, revoked subject key, port fallback, CIDR, hashed) run first.  The '
         "model's input is the result of the real match_known_hosts for the client's (alias or host, peer address, port).  "
         'Presented = each of 8 pool keys, certificates (4 CAs x subjects, type 0/1/2/3, window edges incl. fractional clock '
